@@ -377,6 +377,14 @@ func lemmaViewMergeCommutative(a, b *ClusterView) (ab, ba *ClusterView) {
 //@   requires wfView(a) && wfView(b) && wfView(c) && disjointViews(a, b) && disjointViews(a, c) && disjointViews(b, c)
 //@   requires len(a.Members) + len(b.Members) + len(c.Members) <= effLimit(a.MaxVersionVectorEntries)
 //@   requires len(a.Members) + len(b.Members) + len(c.Members) <= effLimit(b.MaxVersionVectorEntries)
+// proof steps (each an obligation, then a fact for the statement below)
+//@   ensures  forall id string :: (id in left.Members <==> (id in a.Members || id in b.Members || id in c.Members))
+//@   ensures  forall id string :: (id in right.Members <==> (id in a.Members || id in b.Members || id in c.Members))
+//@   ensures  forall id string :: id in left.Members ==> (id in a.Members ==> !lexgt(a.Members[id], left.Members[id])) && (id in b.Members ==> !lexgt(b.Members[id], left.Members[id])) && (id in c.Members ==> !lexgt(c.Members[id], left.Members[id]))
+//@   ensures  forall id string :: id in right.Members ==> (id in a.Members ==> !lexgt(a.Members[id], right.Members[id])) && (id in b.Members ==> !lexgt(b.Members[id], right.Members[id])) && (id in c.Members ==> !lexgt(c.Members[id], right.Members[id]))
+//@   ensures  forall id string :: id in left.Members ==> (id in a.Members && samekey(left.Members[id], a.Members[id])) || (id in b.Members && samekey(left.Members[id], b.Members[id])) || (id in c.Members && samekey(left.Members[id], c.Members[id]))
+//@   ensures  forall id string :: id in right.Members ==> (id in a.Members && samekey(right.Members[id], a.Members[id])) || (id in b.Members && samekey(right.Members[id], b.Members[id])) || (id in c.Members && samekey(right.Members[id], c.Members[id]))
+// the statement
 //@   ensures  sameMembership(left, right)
 func lemmaViewMergeAssociative(a, b, c *ClusterView) (left, right *ClusterView) {
 	ab := lemmaMergeIsJoin(a, b)
